@@ -10,7 +10,8 @@ Local Open Scope N_scope.
 Inductive pkind := POverflow | PIndex | PTodo | PAlloc | PUnwrap | POther.
 Inductive ekind := EOob | EUnaligned | ETooSmall | EUnterminated | EEncoding | EDecoding | EIo
                  | ENoCount | ENoInfo | EMissingName | EInvalidInput | EBadMagic | ELabelIndex
-                 | EOutOfFuel | EOther.
+                 | EOutOfFuel | EOther
+                 | ETooLarge.        (* CompressionError::InputTooLarge: the payload does not fit the size field (F21) *)
 Inductive outcome (A : Type) := Ok (a : A) | Err (e : ekind) | Panic (p : pkind).
 Arguments Ok {A} a. Arguments Err {A} e. Arguments Panic {A} p.
 
